@@ -187,6 +187,14 @@ var branchNames = []string{"main", "dev", "de", "dev2", "feature", "a", "ab", "a
 func (h *Hist) newBranchName() string {
 	r := h.r
 	n := r.pick(branchNames)
+	if r.chance(1, 14) {
+		// not a branch name, but as a file name beneath refs/heads it resolves to something that exists
+		b := "main"
+		if x, ok := h.pickBranch(); ok {
+			b = x
+		}
+		return r.pick([]string{".", "..", "./" + b, b + "/", b + "/.", "../heads/" + b})
+	}
 	if !r.chance(1, 4) {
 		return n
 	}
@@ -769,6 +777,28 @@ func (h *Hist) step() {
 			} else {
 				h.X(tz, "add", strings.TrimSuffix(dir, "/"))
 			}
+			h.X(tz, "status")
+		}
+	case "nested-meta-probe":
+		// a directory that is *named* like Goit's own (`.goit`, `.goit2`, `x.goit`, `.goitx`) below the top level is an ordinary
+		// directory: nothing beneath it is hidden from status or skipped by add, whatever the spelling of the argument
+		outer := h.comp()
+		if outer == ".goit" {
+			break
+		}
+		inner := r.pick([]string{".goit", ".goit", ".goit2", "x.goit", ".goitx", ".goitignore.d"})
+		f1, f2 := outer+"/"+inner+"/"+h.comp(), outer+"/"+inner+"/sub/"+h.comp()
+		h.W("write", f1, h.content())
+		if r.chance(1, 2) {
+			h.W("write", f2, h.content())
+		}
+		h.X(tz, "status")
+		h.X(tz, "add", r.pick([]string{".", outer, outer + "/" + inner, f1, "./" + outer + "/" + inner + "/"}))
+		h.X(tz, "ls-files")
+		h.X(tz, "status")
+		if r.chance(1, 2) {
+			h.W("write", f1, h.content())
+			h.X(tz, "add", r.pick([]string{".", outer, f1}))
 			h.X(tz, "status")
 		}
 	case "nested-ignore-probe":
@@ -1356,6 +1386,10 @@ func junkCands() [][]string {
 		{"rm", "a(b"}, {"restore", "a(b"}, {"restore", "--staged", "a[b"}, {"add", "no such file"}, {"rm", "*"}, {"restore", "+"}, {"rm", "."},
 		{"branch", "a/b"}, {"branch", ".."}, {"branch", "../../HEAD"}, {"switch", "-c", "x/y"}, {"branch", "-r", "../x"}, {"branch", "-d", "../x"},
 		{"frobnicate"}, {"status", "extra"}, {"reflog", "extra"},
+		// names that are not branches but resolve, as file names beneath refs/heads, to something that exists
+		{"switch", "."}, {"switch", ".."}, {"switch", "../HEAD"}, {"switch", "./main"}, {"switch", "main/"}, {"switch", "main/."}, {"switch", "-c", "."}, {"switch", "-c", ".."},
+		{"branch", "."}, {"branch", "-d", "."}, {"branch", "-d", ".."}, {"branch", "-r", "."}, {"branch", "-r", ".."}, {"branch", "-d", "./main"}, {"branch", "-d", "main/"},
+		{"update-ref", "refs/heads/.", strings.Repeat("a", 40)}, {"update-ref", "refs/heads/..", strings.Repeat("a", 40)},
 		{"switch", "-c", "a: b"}, {"branch", "x: y"}, {"branch", "-r", "n: m"}, {"switch", "-c", "sp ace"}, {"branch", "tab\tname"}, {"switch", "-c", "ref: refs/heads/x"},
 		{"switch", "a: b"}, {"switch", "sp ace"}, {"branch", "-d", "x: y"}, {"branch", "ünï"}, {"switch", "-c", "(paren"}, {"branch", "nl\nname"}, {"switch", "-c", "\nlead"}, {"branch", "-r", "\nlead2"}, {"switch", "-c", "\n"}, {"branch", "\nlead3"}, {"switch", "\nlead3"},
 		// ids of every short length, one too long; empty arguments; numbers at and beyond the limits
